@@ -27,6 +27,10 @@ import   "github.com/pbenner/autodiff/algorithm/givensRotation"
 
 /* -------------------------------------------------------------------------- */
 
+// maximum number of Golub-Kahan sweeps per singular value before the
+// algorithm gives up
+const maxSweeps = 1000
+
 type ComputeU struct {
   Value bool
 }
@@ -208,7 +212,10 @@ func golubKahanSVD(inSitu *InSitu, epsilon float64) (Matrix, Matrix, Matrix, err
   H, U, V, _ := householderBidiagonalization.Run(A, computeU, computeV, &inSitu.HouseholderBidiagonalization)
   B := H.Slice(0,n,0,n)
 
-  for p, q := 0, 0; q < n; {
+  for p, q, iter := 0, 0, 0; q < n; iter++ {
+    if iter >= maxSweeps*n {
+      return nil, nil, nil, fmt.Errorf("SVD did not converge")
+    }
 
     for i := 0; i < n-1; i++ {
       b11 := B.At(i  ,i  ).GetFloat64()
